@@ -96,7 +96,14 @@ where
     OpenClosed01: Distribution<F>,
 {
     fn sample<R: Rng + ?Sized>(&self, rng: &mut R) -> F {
-        let x: F = rng.sample(OpenClosed01);
+        // `x == 1` would give `-ln(-ln 1) = -ln 0`, i.e. an infinite sample: redraw
+        // (this has probability 2^-53, or 2^-24 for `f32`).
+        let x: F = loop {
+            let x: F = rng.sample(OpenClosed01);
+            if x < F::one() {
+                break x;
+            }
+        };
         self.location - self.scale * (-x.ln()).ln()
     }
 }
